@@ -61,32 +61,24 @@ def build_trace(tier):
                 err = None
                 for ntu in ntus:
                     try:
-                        if c == 0 and a in ("CrFMM", "CrFMUmax", "CrFMUmin"):
-                            raise ZeroDivisionError      # c = 0 is a removable singularity of these closed forms: use c -> 0+
                         em = HX_Eff(member, ntu, c, P)
                         et = HX_Eff(member.value, ntu, c, P)
-                    except ZeroDivisionError:
-                        em = HX_Eff(member, ntu, 1e-9, P)
-                        et = HX_Eff(member.value, ntu, 1e-9, P)
-                    cfv = HX_Eff(HX.CF, ntu, c, P)
-                    ok = reachable(a, ntu, c) and 0 < em < 0.999
-                    try:
-                        cc = c if not (c == 0 and a in ("CrFMM", "CrFMUmax", "CrFMUmin")) else 1e-9
-                        bm = HX_NTU(member, em, cc, P) if ok else 0.0
-                        bt = HX_NTU(member.value, em, cc, P) if ok else 0.0
-                    except Exception as e:
-                        bm = bt = -7.0
-                        err = repr(e)
-                    try:
-                        eb = HX_Eff(member, bm, cc, P) if ok and bm > 0 else 0.0
-                    except Exception:
-                        eb = -7.0
+                        cfv = HX_Eff(HX.CF, ntu, c, P)
+                        ok = reachable(a, ntu, c) and 0 < em < 0.999
+                        bm = HX_NTU(member, em, c, P) if ok else 0.0
+                        bt = HX_NTU(member.value, em, c, P) if ok else 0.0
+                        eb = HX_Eff(member, bm, c, P) if ok and bm > 0 else 0.0
+                    except Exception as e:         # the functions are total on the stated domain (c = 0 included)
+                        err = err or f"NTU={ntu} c={c} passes={P}: {e!r}"[:200]
+                        em = et = bm = bt = eb = -7.0
+                        cfv = 1.0
+                        ok = False
                     for lst, v in ((effM, em), (effT, et), (backM, bm), (backT, bt), (cf, cfv), (effBack, eb)):
                         lst.append(int(round(v * M)) if math.isfinite(v) else -9 * M)
                     reach.append(bool(ok))
                 sid += 1
                 series.append(dict(id=f"{a}|c={c}|passes={P}", arr=a, c4=c4, c=c, passes=P,
-                                   n4=(n4s if c4 >= 0 else [0] * len(ntus)), ntuM=[int(round(x * M)) for x in ntus], effM=effM, effT=effT,
+                                   n4=(n4s if c4 >= 0 else [0] * len(ntus)), ntuM=[int(round(x * M)) for x in ntus], err=err or "", effM=effM, effT=effT,
                                    backM=backM, backT=backT, cf=cf, reach=reach, effBack=effBack))
     lm = []
     ds = [-5, 0, 1, 2, 3, 5, 8, 13, 20, 21, 34, 50]
@@ -127,7 +119,7 @@ def check(prop, tier, run: Run, replay_case=None):
     run.register_matcher("kf_crfuu", kf_crfuu)
     run.assumptions += ["values transported in fixed point (1e-6); exp table at 1e-4 verified by TLC (semigroup law, Taylor bracket, monotone)",
                         "closed forms checked for counter flow and parallel flow; the other arrangements by relational axioms",
-                        "c = 0 for the three cross-flow closed forms that divide by c is evaluated at c = 1e-9"]
+                        "c = 0 is evaluated at exactly 0 for every arrangement"]
     # Leg M: dispatch machine
     r = _tlc(dict(Normalise=True, HasTrace=False), invs=["C20_Dispatch"])
     run.add_tlc(r, "dispatch")
@@ -156,8 +148,13 @@ def check(prop, tier, run: Run, replay_case=None):
     run.cov["evaluations"] = sum(len(s["n4"]) * 5 for s in data["series"]) + 3 * len(data["lmtd"])
     run.cov["traces_validated_against_impl"] = n
     run.cov["exhaustive"] = True
+    for srs in data["series"]:
+        if srs["err"]:
+            run.violation("C20.defined_on_the_stated_domain", dict(id=srs["id"], arr=srs["arr"]), dict(exc=srs["err"]))
     for tag, obj in res.lines:
         if tag == "VERDICT":
+            if byid[obj["id"]].get("err"):
+                continue
             for c in obj["fails"]:
                 run.violation(c, byid[obj["id"]], dict(id=obj["id"]))
     run.cov["distinct_nontrivial"] = sum(1 for s in data["series"] if s["c4"] > 0) + sum(1 for r_ in data["lmtd"] if r_["d1"] > 0 and r_["d2"] > 0 and r_["d1"] != r_["d2"])
